@@ -325,6 +325,11 @@ func c19RunScenario(sc c19Scn) c19Outcome {
 		l.End(1).Close()
 	}
 	wgAll.Wait()
+	// Cloak's own goroutines (deplex inside rxWait, a Close inside txWait) must have left before the bubble's
+	// main goroutine returns, and the virtual clock only runs while it is alive: the debt of a bucket is at
+	// most (connections x one record) / rate < 2 minutes
+	time.Sleep(20 * time.Minute)
+	synctest.Wait()
 	rec.mu.Lock()
 	defer rec.mu.Unlock()
 	out := c19Outcome{Evs: rec.evs, Bytes: map[string]int64{}, AppBytes: map[string]int64{"limited": appLim.Load(), "peer": appPeer.Load()}}
